@@ -366,3 +366,299 @@ Proof.
     rewrite m_decode_udt. cbn [src_len src_bytes]. cbn [List.length] in D3. replace (zlen body =? 0) with false by lia.
     rewrite (D2 eq_refl). reflexivity.
 Qed.
+
+(* ---------------------------------------------------------------------------------------------- C12: the encoder emits the specification's bytes *)
+Definition EC (v : Z) (t : cqltype) : Prop :=
+  forall x r, wt t x = true -> spec_val v t x = Some r -> m_encode v t x = OK r.
+
+Lemma spec_int_be n : fits_twos 4 n = true -> spec_int n = Some (be_bytes 4 n).
+Proof. intro H. unfold spec_int. apply spec_twos_be; [lia|exact H]. Qed.
+
+Lemma spec_int_some n c : spec_int n = Some c -> fits_twos 4 n = true /\ c = be_bytes 4 n.
+Proof.
+  unfold spec_int, spec_twos. destruct (fits_twos 4 n) eqn:F; [|discriminate]. intro H. split; [reflexivity|].
+  pose proof (spec_int_be n F) as E. unfold spec_int, spec_twos in E. rewrite F in E. congruence.
+Qed.
+Lemma spec_short_some n c : spec_short n = Some c -> 0 <= n < 65536 /\ c = be_bytes 2 n.
+Proof.
+  unfold spec_short, spec_unsigned. destruct (fits_unsigned 2 n) eqn:F; [|discriminate]. intro H. apply some_inj in H. subst c.
+  unfold fits_unsigned in F. change (256 ^ Z.of_nat 2) with 65536 in F. split; [lia|]. symmetry. apply be_bytes_spec_uint.
+Qed.
+
+Lemma fits4_range n : fits_twos 4 n = true <-> - 2 ^ 31 <= n < 2 ^ 31.
+Proof. unfold fits_twos. change (8 * Z.of_nat 4 - 1) with 31. lia. Qed.
+
+Lemma count_agree v n c : 0 <= n -> spec_count v n = Some c -> writeCollectionSize v n = OK c.
+Proof.
+  intros Hn. unfold spec_count, writeCollectionSize, int_sized_collections, uses4. destruct (3 <=? v).
+  - replace (0 <=? n) with true by lia. intro H. apply spec_int_some in H. destruct H as (F & ->). apply fits4_range in F.
+    change (2 ^ 31) with 2147483648 in F.
+    replace (2147483647 <? n) with false by lia. replace (n <? 0) with false by lia.
+    rewrite wrap_i32_small by (change (2 ^ 31) with 2147483648; lia). unfold wrap_u32. rewrite be_bytes_wrap_u by reflexivity. reflexivity.
+  - intro H. apply spec_short_some in H. destruct H as (F & ->).
+    replace (65535 <? n) with false by lia. replace (n <? 0) with false by lia.
+    unfold wrap_u16. rewrite be_bytes_wrap_u by reflexivity. reflexivity.
+Qed.
+
+Lemma elem_agree v ro a : spec_elem v (Some ro) = Some a -> write_elem v ro = OK a.
+Proof.
+  unfold spec_elem, write_elem, int_sized_collections, uses4. cbn [obind]. destruct (3 <=? v).
+  - unfold spec_bytes, write_bytes. destruct ro as [b|].
+    + intro H. apply obind_some in H. destruct H as (n & Hn & H). apply some_inj in H. subst a.
+      apply spec_int_some in Hn. destruct Hn as (F & ->). apply fits4_range in F. pose proof (zlen_nonneg b). unfold lenZ in *. fold (zlen b) in *.
+      rewrite wrap_i32_small by lia. unfold wrap_u32. rewrite be_bytes_wrap_u by reflexivity. reflexivity.
+    + intro H. apply spec_int_some in H. destruct H as (_ & ->). unfold wrap_u32. rewrite be_bytes_wrap_u by reflexivity. reflexivity.
+  - unfold spec_short_bytes. destruct ro as [b|]; [|discriminate].
+    intro H. apply obind_some in H. destruct H as (n & Hn & H). apply some_inj in H. subst a.
+    apply spec_short_some in Hn. destruct Hn as (F & ->). unfold lenZ in *. fold (zlen b) in *.
+    replace (65535 <? zlen b) with false by lia. unfold write_short_bytes, wrap_u16. rewrite be_bytes_wrap_u by reflexivity. reflexivity.
+Qed.
+
+Lemma spec_elem_some v o a : spec_elem v o = Some a -> exists ro, o = Some ro.
+Proof. destruct o; [eauto|discriminate]. Qed.
+
+Lemma oconcat_cons o l r : oconcat (o :: l) = Some r -> exists a b, o = Some a /\ oconcat l = Some b /\ r = a ++ b.
+Proof.
+  cbn [oconcat]. intro H. apply obind_some in H. destruct H as (a & Ha & H). apply obind_some in H. destruct H as (b & Hb & H).
+  apply some_inj in H. eauto.
+Qed.
+
+Lemma ec_elems v e : EC v e -> forall xs body, forallb (wt e) xs = true ->
+  oconcat (map (fun x => spec_elem v (spec_val v e x)) xs) = Some body -> enc_elems v (m_encode v e) xs = OK body.
+Proof.
+  intros IH xs. induction xs as [|x r IHr]; intros body Hwt H.
+  - cbn in H. apply some_inj in H. subst. reflexivity.
+  - cbn [forallb] in Hwt. apply andb_true_iff in Hwt. destruct Hwt as (Hx & Hr).
+    cbn [map] in H. apply oconcat_cons in H. destruct H as (a & b & Ha & Hb & ->).
+    destruct (spec_elem_some _ _ _ Ha) as (ro & Ero). rewrite Ero in Ha.
+    cbn [enc_elems]. rewrite (IH x ro Hx Ero). cbn [bindo]. rewrite (elem_agree v ro a Ha). cbn [bindo].
+    rewrite (IHr b Hr Hb). reflexivity.
+Qed.
+
+Lemma ec_entries v k w : EC v k -> EC v w -> forall kvs body, forallb (fun kv => wt k (fst kv) && wt w (snd kv)) kvs = true ->
+  oconcat (map (fun kv => a <-? spec_elem v (spec_val v k (fst kv)); b <-? spec_elem v (spec_val v w (snd kv)); Some (a ++ b)) kvs) = Some body ->
+  enc_entries v (m_encode v k) (m_encode v w) kvs = OK body.
+Proof.
+  intros IHk IHw kvs. induction kvs as [|[kk ww] r IHr]; intros body Hwt H.
+  - cbn in H. apply some_inj in H. subst. reflexivity.
+  - cbn [forallb fst snd] in Hwt. apply andb_true_iff in Hwt. destruct Hwt as (Hx & Hr). apply andb_true_iff in Hx. destruct Hx as (Hkk & Hww).
+    cbn [map fst snd] in H. apply oconcat_cons in H. destruct H as (a & b & Ha & Hb & ->).
+    apply obind_some in Ha. destruct Ha as (a1 & Ha1 & Ha). apply obind_some in Ha. destruct Ha as (a2 & Ha2 & Ha). apply some_inj in Ha. subst a.
+    destruct (spec_elem_some _ _ _ Ha1) as (r1 & E1). rewrite E1 in Ha1.
+    destruct (spec_elem_some _ _ _ Ha2) as (r2 & E2). rewrite E2 in Ha2.
+    cbn [enc_entries]. rewrite (IHk kk r1 Hkk E1), (IHw ww r2 Hww E2). cbn [bindo].
+    rewrite (elem_agree v r1 a1 Ha1), (elem_agree v r2 a2 Ha2). cbn [bindo].
+    rewrite (IHr b Hr Hb). cbn [bindo]. rewrite <- app_assoc. reflexivity.
+Qed.
+
+Lemma spec_bytes_agree ro a : spec_bytes ro = Some a -> a = write_bytes ro.
+Proof.
+  unfold spec_bytes, write_bytes. destruct ro as [b|].
+  - intro H. apply obind_some in H. destruct H as (n & Hn & H). apply some_inj in H. subst a.
+    apply spec_int_some in Hn. destruct Hn as (F & ->). apply fits4_range in F. pose proof (zlen_nonneg b). unfold lenZ in *. fold (zlen b) in *.
+    rewrite wrap_i32_small by lia. unfold wrap_u32. rewrite be_bytes_wrap_u by reflexivity. reflexivity.
+  - intro H. apply spec_int_some in H. destruct H as (_ & ->). unfold wrap_u32. rewrite be_bytes_wrap_u by reflexivity. reflexivity.
+Qed.
+
+Lemma ec_fields v fs : Forall (EC v) fs -> forall xs body, wt_fields fs xs = true -> spec_fields v fs xs = Some body ->
+  enc_fields (m_encode v) fs xs = OK body.
+Proof.
+  intro IH. induction IH as [|f fs' Hf Hfs IHfs]; intros xs body Hwt H.
+  - destruct xs; [|discriminate]. cbn in H. apply some_inj in H. subst. reflexivity.
+  - destruct xs as [|x xs']; [discriminate|]. cbn [wt_fields] in Hwt. apply andb_true_iff in Hwt. destruct Hwt as (Hx & Hr).
+    cbn [spec_fields] in H. apply obind_some in H. destruct H as (a & Ha & H). apply obind_some in H. destruct H as (b & Hb & H). apply some_inj in H. subst body.
+    apply obind_some in Ha. destruct Ha as (ro & Ero & Ha). apply spec_bytes_agree in Ha. subst a.
+    cbn [enc_fields]. rewrite (Hf x ro Hx Ero). cbn [bindo]. rewrite (IHfs xs' b Hr Hb). reflexivity.
+Qed.
+
+Lemma spec_val_nonnull v t x r : spec_val v t x = Some r -> x <> VNull -> exists b, spec_ser v t x = Some b /\ r = Some b.
+Proof.
+  intros H Hn. unfold spec_val in H. destruct x; try contradiction; apply obind_some in H; destruct H as (bb & Hb & H); apply some_inj in H; eauto.
+Qed.
+Lemma spec_val_null v t r : spec_val v t VNull = Some r -> r = None.
+Proof. cbn. intro H. congruence. Qed.
+
+Theorem enc_complete v t x r : wf_type t = true -> wt t x = true -> spec_val v t x = Some r -> m_encode v t x = OK r.
+Proof.
+  intro Hwf. revert x r. change (EC v t). induction t using cqltype_ind2; cbn [wf_type] in Hwf; intros x r Hwt Hs.
+  - destruct (cval_null_dec x) as [->|Hnn].
+    + apply spec_val_null in Hs. subst. reflexivity.
+    + destruct (spec_val_nonnull _ _ _ _ Hs Hnn) as (b & Hb & ->). rewrite m_encode_scalar.
+      assert (Hsc: wt_scalar s x = true) by (destruct x; try contradiction; exact Hwt).
+      destruct (enc_scalar_spec s x Hsc) as (b' & Eb & Sb). cbn [spec_ser] in Hb. rewrite Sb in Hb. apply some_inj in Hb. subst b'. exact Eb.
+  - destruct (wt_not_null_list _ _ Hwt) as [->|(xs & -> & Hxs)]; [apply spec_val_null in Hs; subst; reflexivity|].
+    destruct (spec_val_nonnull _ _ _ _ Hs ltac:(discriminate)) as (b & Hb & ->). rewrite spec_ser_list in Hb.
+    apply obind_some in Hb. destruct Hb as (c & Hc & Hb). apply obind_some in Hb. destruct Hb as (body & Hbody & Hb). apply some_inj in Hb. subst b.
+    change (m_encode v (TList t) (VList xs)) with (c <-! writeCollectionSize v (zlen xs); b <-! enc_elems v (m_encode v t) xs; OK (Some (c ++ b))).
+    rewrite (count_agree v _ c (zlen_nonneg xs) Hc). cbn [bindo]. rewrite (ec_elems v t (IHt Hwf) xs body Hxs Hbody). reflexivity.
+  - destruct (wt_not_null_set _ _ Hwt) as [->|(xs & -> & Hxs)]; [apply spec_val_null in Hs; subst; reflexivity|].
+    destruct (spec_val_nonnull _ _ _ _ Hs ltac:(discriminate)) as (b & Hb & ->). rewrite spec_ser_set in Hb.
+    apply obind_some in Hb. destruct Hb as (c & Hc & Hb). apply obind_some in Hb. destruct Hb as (body & Hbody & Hb). apply some_inj in Hb. subst b.
+    change (m_encode v (TSet t) (VList xs)) with (c <-! writeCollectionSize v (zlen xs); b <-! enc_elems v (m_encode v t) xs; OK (Some (c ++ b))).
+    rewrite (count_agree v _ c (zlen_nonneg xs) Hc). cbn [bindo]. rewrite (ec_elems v t (IHt Hwf) xs body Hxs Hbody). reflexivity.
+  - apply andb_true_iff in Hwf. destruct Hwf as (Hwk & Hww).
+    destruct (wt_not_null_map _ _ _ Hwt) as [->|(kvs & -> & Hkvs)]; [apply spec_val_null in Hs; subst; reflexivity|].
+    destruct (spec_val_nonnull _ _ _ _ Hs ltac:(discriminate)) as (b & Hb & ->). rewrite spec_ser_map in Hb.
+    apply obind_some in Hb. destruct Hb as (c & Hc & Hb). apply obind_some in Hb. destruct Hb as (body & Hbody & Hb). apply some_inj in Hb. subst b.
+    change (m_encode v (TMap t1 t2) (VMap kvs)) with
+      (c <-! writeCollectionSize v (zlen kvs); b <-! enc_entries v (m_encode v t1) (m_encode v t2) kvs; OK (Some (c ++ b))).
+    rewrite (count_agree v _ c (zlen_nonneg kvs) Hc). cbn [bindo].
+    rewrite (ec_entries v t1 t2 (IHt1 Hwk) (IHt2 Hww) kvs body Hkvs Hbody). reflexivity.
+  - apply andb_true_iff in Hwf. destruct Hwf as (Hne & Hall).
+    assert (HF: Forall (EC v) fs).
+    { rewrite forallb_forall in Hall. rewrite Forall_forall in *. intros f Hin. apply H; [exact Hin|apply Hall; exact Hin]. }
+    destruct (wt_not_null_tuple _ _ Hwt) as [->|(xs & -> & Hxs)]; [apply spec_val_null in Hs; subst; reflexivity|].
+    destruct (spec_val_nonnull _ _ _ _ Hs ltac:(discriminate)) as (b & Hb & ->). rewrite spec_ser_tuple in Hb.
+    rewrite m_encode_tuple. rewrite (ec_fields v fs HF xs b Hxs Hb). cbn [bindo]. destruct fs; [discriminate|reflexivity].
+  - apply andb_true_iff in Hwf. destruct Hwf as (Hne & Hall). apply andb_true_iff in Hne. destruct Hne as (Hne & _).
+    assert (HF: Forall (EC v) fs).
+    { rewrite forallb_forall in Hall. rewrite Forall_forall in *. intros f Hin. apply H; [exact Hin|apply Hall; exact Hin]. }
+    destruct (wt_not_null_udt _ _ _ Hwt) as [->|(xs & -> & Hxs)]; [apply spec_val_null in Hs; subst; reflexivity|].
+    destruct (spec_val_nonnull _ _ _ _ Hs ltac:(discriminate)) as (b & Hb & ->). rewrite spec_ser_udt in Hb.
+    rewrite m_encode_udt. rewrite (ec_fields v fs HF xs b Hxs Hb). cbn [bindo]. destruct fs; [discriminate|reflexivity].
+Qed.
+
+Theorem enc_err_inexpressible v t x : wf_type t = true -> wt t x = true -> m_encode v t x = ERR -> spec_val v t x = None.
+Proof.
+  intros Hwf Hwt HE. destruct (spec_val v t x) as [r|] eqn:S; [|reflexivity].
+  rewrite (enc_complete v t x r Hwf Hwt S) in HE. discriminate.
+Qed.
+
+Theorem spec_bytes_decode v t x b :
+  wf_type t = true -> wt t x = true -> spec_val v t x = Some (Some b) -> zlen b < 2 ^ 31 -> m_decode v t (Some b) = OK x.
+Proof.
+  intros Hwf Hwt S Hsz. apply (round_trip v t Hwf x (Some b) Hwt); [apply enc_complete; assumption|exact Hsz].
+Qed.
+
+(* ---------------------------------------------------------------------------------------------- C04 (datacodec half): no panic *)
+Lemma take_np n src : take n src <> PANIC.
+Proof. unfold take. destruct (zlen src <? n); discriminate. Qed.
+Lemma read_int_np src : read_int src <> PANIC.
+Proof. unfold read_int. apply bindo_np; [apply take_np|discriminate]. Qed.
+Lemma read_short_np src : read_short src <> PANIC.
+Proof. unfold read_short. apply bindo_np; [apply take_np|discriminate]. Qed.
+Lemma read_bytes_np src : read_bytes src <> PANIC.
+Proof.
+  unfold read_bytes. apply bindo_np; [apply read_int_np|]. intros [n rest].
+  destruct (n <? 0); [discriminate|]. destruct (n =? 0); [discriminate|]. apply bindo_np; [apply take_np|discriminate].
+Qed.
+Lemma read_short_bytes_np src : read_short_bytes src <> PANIC.
+Proof.
+  unfold read_short_bytes. apply bindo_np; [apply read_short_np|]. intros [n rest].
+  destruct (n =? 0); [discriminate|]. apply bindo_np; [apply take_np|discriminate].
+Qed.
+Lemma read_elem_np v src : read_elem v src <> PANIC.
+Proof. unfold read_elem. destruct (uses4 v); [apply read_bytes_np|apply read_short_bytes_np]. Qed.
+Lemma all_read_np {A} (r : A * bytes) : all_read r <> PANIC.
+Proof. unfold all_read. destruct (zlen (snd r) =? 0); discriminate. Qed.
+
+Lemma dec_elems_np v dec : (forall src, dec src <> PANIC) -> forall fuel n src, dec_elems v dec fuel n src <> PANIC.
+Proof.
+  intros Hd fuel. induction fuel as [|f IH]; intros n src; cbn [dec_elems]; destruct (n <=? 0); try discriminate.
+  apply bindo_np; [apply read_elem_np|intro r]. apply bindo_np; [apply Hd|intro x]. apply bindo_np; [apply IH|discriminate].
+Qed.
+Lemma dec_entries_np v dk dw : (forall src, dk src <> PANIC) -> (forall src, dw src <> PANIC) -> forall fuel n src, dec_entries v dk dw fuel n src <> PANIC.
+Proof.
+  intros Hk Hw fuel. induction fuel as [|f IH]; intros n src; cbn [dec_entries]; destruct (n <=? 0); try discriminate.
+  apply bindo_np; [apply read_elem_np|intro rk]. apply bindo_np; [apply read_elem_np|intro rv].
+  apply bindo_np; [apply Hk|intro k]. apply bindo_np; [apply Hw|intro w]. apply bindo_np; [apply IH|discriminate].
+Qed.
+Lemma dec_fields_np v fs : Forall (fun t => forall src, m_decode v t src <> PANIC) fs ->
+  forall src, dec_fields (m_decode v) fs src <> PANIC /\ dec_fields_udt (m_decode v) fs src <> PANIC.
+Proof.
+  intro H. induction H as [|f fs' Hf Hfs IH]; intro src; cbn [dec_fields dec_fields_udt]; split; try discriminate.
+  - apply bindo_np; [apply read_bytes_np|intro e]. apply bindo_np; [apply Hf|intro x]. apply bindo_np; [apply IH|discriminate].
+  - apply bindo_np; [destruct src; [discriminate|apply read_bytes_np]|intro e]. apply bindo_np; [apply Hf|intro x]. apply bindo_np; [apply IH|discriminate].
+Qed.
+
+Theorem decode_no_panic v t : forall src, m_decode v t src <> PANIC.
+Proof.
+  induction t using cqltype_ind2; intro src.
+  - cbn [m_decode]. apply dec_scalar_no_panic.
+  - cbn [m_decode]. destruct (src_len src =? 0); [discriminate|]. apply bindo_np.
+    + unfold readCollectionSize. destruct (uses4 v); [apply read_int_np|apply read_short_np].
+    + intros [size rest]. destruct (size <? 0); [discriminate|]. apply bindo_np; [apply dec_elems_np; exact IHt|intro es].
+      apply bindo_np; [apply all_read_np|discriminate].
+  - cbn [m_decode]. destruct (src_len src =? 0); [discriminate|]. apply bindo_np.
+    + unfold readCollectionSize. destruct (uses4 v); [apply read_int_np|apply read_short_np].
+    + intros [size rest]. destruct (size <? 0); [discriminate|]. apply bindo_np; [apply dec_elems_np; exact IHt|intro es].
+      apply bindo_np; [apply all_read_np|discriminate].
+  - cbn [m_decode]. destruct (src_len src =? 0); [discriminate|]. apply bindo_np.
+    + unfold readCollectionSize. destruct (uses4 v); [apply read_int_np|apply read_short_np].
+    + intros [size rest]. destruct (size <? 0); [discriminate|]. apply bindo_np; [apply dec_entries_np; [exact IHt1|exact IHt2]|intro es].
+      apply bindo_np; [apply all_read_np|discriminate].
+  - rewrite m_decode_tuple. destruct (src_len src =? 0); [discriminate|].
+    apply bindo_np; [apply (dec_fields_np v fs H)|intro r]. apply bindo_np; [apply all_read_np|discriminate].
+  - rewrite m_decode_udt. destruct (src_len src =? 0); [discriminate|].
+    apply bindo_np; [apply (dec_fields_np v fs H)|intro r]. apply bindo_np; [apply all_read_np|discriminate].
+Qed.
+
+(* ---------------------------------------------------------------------------------------------- C14 *)
+Definition string_type (t : cqltype) : bool := match t with TScalar s => string_like s | _ => false end.
+
+Theorem decode_empty_is_null v t : m_decode v t (Some []) = OK (if string_type t then VBytes [] else VNull).
+Proof. destruct t; try reflexivity. cbn [m_decode string_type]. apply dec_scalar_empty. Qed.
+
+(* v2 cannot express a NULL inside a collection: no encoding is produced *)
+Definition NR (v : Z) (t : cqltype) : Prop := forall x, null_in_coll t x = true -> forall o, m_encode v t x <> OK o.
+
+Lemma write_elem_v2_none v : uses4 v = false -> write_elem v None = ERR.
+Proof. intro H. unfold write_elem. rewrite H. reflexivity. Qed.
+
+Lemma nr_elems v e : uses4 v = false -> NR v e -> forall xs,
+  existsb (fun x => match x with VNull => true | _ => false end || null_in_coll e x) xs = true -> forall body, enc_elems v (m_encode v e) xs <> OK body.
+Proof.
+  intros Hv IH xs. induction xs as [|x r IHr]; intros Hex body HE; [discriminate|].
+  cbn [existsb] in Hex. cbn [enc_elems] in HE.
+  apply bindo_ok in HE. destruct HE as (eo & He & HE). apply bindo_ok in HE. destruct HE as (b & Hb & HE).
+  apply bindo_ok in HE. destruct HE as (rb & Hrb & _).
+  apply orb_true_iff in Hex. destruct Hex as [Hx|Hr]; [|exact (IHr Hr rb Hrb)].
+  apply orb_true_iff in Hx. destruct Hx as [Hx|Hx].
+  - destruct x; try discriminate. rewrite m_encode_null in He. apply ok_inj in He. subst eo.
+    rewrite (write_elem_v2_none v Hv) in Hb. discriminate.
+  - exact (IH x Hx eo He).
+Qed.
+
+Lemma nr_fields v fs : Forall (NR v) fs -> forall xs,
+  (fix fields (fs : list cqltype) (xs : list cval) {struct fs} : bool :=
+     match fs, xs with f :: fs', x :: xs' => null_in_coll f x || fields fs' xs' | _, _ => false end) fs xs = true ->
+  forall body, enc_fields (m_encode v) fs xs <> OK body.
+Proof.
+  intro H. induction H as [|f fs' Hf Hfs IH]; intros xs Hex body HE; [discriminate|].
+  destruct xs as [|x xs']; [discriminate|]. cbn [enc_fields] in HE.
+  apply bindo_ok in HE. destruct HE as (eo & He & HE). apply bindo_ok in HE. destruct HE as (rb & Hrb & _).
+  apply orb_true_iff in Hex. destruct Hex as [Hx|Hr]; [exact (Hf x Hx eo He)|exact (IH xs' Hr rb Hrb)].
+Qed.
+
+Theorem v2_refuses_nulls v t : uses4 v = false -> NR v t.
+Proof.
+  intro Hv. induction t using cqltype_ind2; intros x Hn o HE.
+  - destruct x; discriminate.
+  - destruct x; try discriminate. cbn [null_in_coll] in Hn.
+    change (m_encode v (TList t) (VList es)) with (c <-! writeCollectionSize v (zlen es); b <-! enc_elems v (m_encode v t) es; OK (Some (c ++ b))) in HE.
+    apply bindo_ok in HE. destruct HE as (c & _ & HE). apply bindo_ok in HE. destruct HE as (b & Hb & _).
+    exact (nr_elems v t Hv IHt es Hn b Hb).
+  - destruct x; try discriminate. cbn [null_in_coll] in Hn.
+    change (m_encode v (TSet t) (VList es)) with (c <-! writeCollectionSize v (zlen es); b <-! enc_elems v (m_encode v t) es; OK (Some (c ++ b))) in HE.
+    apply bindo_ok in HE. destruct HE as (c & _ & HE). apply bindo_ok in HE. destruct HE as (b & Hb & _).
+    exact (nr_elems v t Hv IHt es Hn b Hb).
+  - destruct x; try discriminate. cbn [null_in_coll] in Hn.
+    change (m_encode v (TMap t1 t2) (VMap kvs)) with
+      (c <-! writeCollectionSize v (zlen kvs); b <-! enc_entries v (m_encode v t1) (m_encode v t2) kvs; OK (Some (c ++ b))) in HE.
+    apply bindo_ok in HE. destruct HE as (c & _ & HE). apply bindo_ok in HE. destruct HE as (b & Hb & _).
+    clear c o. revert b Hb. induction kvs as [|[kk ww] r IHr]; intros b Hb; [discriminate|].
+    cbn [existsb fst snd] in Hn. cbn [enc_entries] in Hb.
+    apply bindo_ok in Hb. destruct Hb as (e1 & He1 & Hb). apply bindo_ok in Hb. destruct Hb as (e2 & He2 & Hb).
+    apply bindo_ok in Hb. destruct Hb as (b1 & Hb1 & Hb). apply bindo_ok in Hb. destruct Hb as (b2 & Hb2 & Hb).
+    apply bindo_ok in Hb. destruct Hb as (rb & Hrb & _).
+    apply orb_true_iff in Hn. destruct Hn as [Hx|Hr]; [|exact (IHr Hr rb Hrb)].
+    rewrite !orb_true_iff in Hx. destruct Hx as [[[Hx|Hx]|Hx]|Hx].
+    + destruct kk; try discriminate. rewrite m_encode_null in He1. apply ok_inj in He1. subst e1. rewrite (write_elem_v2_none v Hv) in Hb1. discriminate.
+    + destruct ww; try discriminate. rewrite m_encode_null in He2. apply ok_inj in He2. subst e2. rewrite (write_elem_v2_none v Hv) in Hb2. discriminate.
+    + exact (IHt1 kk Hx e1 He1).
+    + exact (IHt2 ww Hx e2 He2).
+  - destruct x; try discriminate. cbn [null_in_coll] in Hn. rewrite m_encode_tuple in HE.
+    apply bindo_ok in HE. destruct HE as (b & Hb & _). exact (nr_fields v fs H es Hn b Hb).
+  - destruct x; try discriminate. cbn [null_in_coll] in Hn. rewrite m_encode_udt in HE.
+    apply bindo_ok in HE. destruct HE as (b & Hb & _). exact (nr_fields v fs H es Hn b Hb).
+Qed.
